@@ -20,6 +20,10 @@ MCPkgsP == {[name |-> "io", path |-> "io"], [name |-> "io", path |-> "x/io"],
 MCPkgsT == MCPkgs4 \cup {[name |-> "src", path |-> "q/src"], [name |-> "src", path |-> "src"]}
 MCPrefixesP == {"io", "src"}
 MCAddNamesP == {"io0", "src"}
+\* deep alphabet: ONE prefix allocated many times (suffix >= 10) and a dozen same-named packages (alias index >= 10)
+MCPkgsDeep == {[name |-> "io", path |-> "d/" \o ToString(i)] : i \in 10..22}
+MCPrefixesDeep == {"a"}
+MCAddNamesDeep == {"a3", "a11"}
 ====\* package-focused alphabet: a path that is a "/"-suffix of another one ("io" vs "x/io"), a package named like
 \* the source package, and the source package itself (= destination path: external test package unless in-package)
 MCPkgsP == {[name |-> "io", path |-> "io"], [name |-> "io", path |-> "x/io"],
@@ -28,6 +32,10 @@ MCPkgsP == {[name |-> "io", path |-> "io"], [name |-> "io", path |-> "x/io"],
 MCPkgsT == MCPkgs4 \cup {[name |-> "src", path |-> "q/src"], [name |-> "src", path |-> "src"]}
 MCPrefixesP == {"io", "src"}
 MCAddNamesP == {"io0", "src"}
+\* deep alphabet: ONE prefix allocated many times (suffix >= 10) and a dozen same-named packages (alias index >= 10)
+MCPkgsDeep == {[name |-> "io", path |-> "d/" \o ToString(i)] : i \in 10..22}
+MCPrefixesDeep == {"a"}
+MCAddNamesDeep == {"a3", "a11"}
 ====\* package-focused alphabet: a path that is a "/"-suffix of another one ("io" vs "x/io"), a package named like
 \* the source package, and the source package itself (= destination path: external test package unless in-package)
 MCPkgsP == {[name |-> "io", path |-> "io"], [name |-> "io", path |-> "x/io"],
@@ -36,6 +44,10 @@ MCPkgsP == {[name |-> "io", path |-> "io"], [name |-> "io", path |-> "x/io"],
 MCPkgsT == MCPkgs4 \cup {[name |-> "src", path |-> "q/src"], [name |-> "src", path |-> "src"]}
 MCPrefixesP == {"io", "src"}
 MCAddNamesP == {"io0", "src"}
+\* deep alphabet: ONE prefix allocated many times (suffix >= 10) and a dozen same-named packages (alias index >= 10)
+MCPkgsDeep == {[name |-> "io", path |-> "d/" \o ToString(i)] : i \in 10..22}
+MCPrefixesDeep == {"a"}
+MCAddNamesDeep == {"a3", "a11"}
 ====\* package-focused alphabet: a path that is a "/"-suffix of another one ("io" vs "x/io"), a package named like
 \* the source package, and the source package itself (= destination path: external test package unless in-package)
 MCPkgsP == {[name |-> "io", path |-> "io"], [name |-> "io", path |-> "x/io"],
@@ -44,6 +56,10 @@ MCPkgsP == {[name |-> "io", path |-> "io"], [name |-> "io", path |-> "x/io"],
 MCPkgsT == MCPkgs4 \cup {[name |-> "src", path |-> "q/src"], [name |-> "src", path |-> "src"]}
 MCPrefixesP == {"io", "src"}
 MCAddNamesP == {"io0", "src"}
+\* deep alphabet: ONE prefix allocated many times (suffix >= 10) and a dozen same-named packages (alias index >= 10)
+MCPkgsDeep == {[name |-> "io", path |-> "d/" \o ToString(i)] : i \in 10..22}
+MCPrefixesDeep == {"a"}
+MCAddNamesDeep == {"a3", "a11"}
 ====\* package-focused alphabet: a path that is a "/"-suffix of another one ("io" vs "x/io"), a package named like
 \* the source package, and the source package itself (= destination path: external test package unless in-package)
 MCPkgsP == {[name |-> "io", path |-> "io"], [name |-> "io", path |-> "x/io"],
@@ -52,6 +68,10 @@ MCPkgsP == {[name |-> "io", path |-> "io"], [name |-> "io", path |-> "x/io"],
 MCPkgsT == MCPkgs4 \cup {[name |-> "src", path |-> "q/src"], [name |-> "src", path |-> "src"]}
 MCPrefixesP == {"io", "src"}
 MCAddNamesP == {"io0", "src"}
+\* deep alphabet: ONE prefix allocated many times (suffix >= 10) and a dozen same-named packages (alias index >= 10)
+MCPkgsDeep == {[name |-> "io", path |-> "d/" \o ToString(i)] : i \in 10..22}
+MCPrefixesDeep == {"a"}
+MCAddNamesDeep == {"a3", "a11"}
 ====\* package-focused alphabet: a path that is a "/"-suffix of another one ("io" vs "x/io"), a package named like
 \* the source package, and the source package itself (= destination path: external test package unless in-package)
 MCPkgsP == {[name |-> "io", path |-> "io"], [name |-> "io", path |-> "x/io"],
@@ -60,6 +80,10 @@ MCPkgsP == {[name |-> "io", path |-> "io"], [name |-> "io", path |-> "x/io"],
 MCPkgsT == MCPkgs4 \cup {[name |-> "src", path |-> "q/src"], [name |-> "src", path |-> "src"]}
 MCPrefixesP == {"io", "src"}
 MCAddNamesP == {"io0", "src"}
+\* deep alphabet: ONE prefix allocated many times (suffix >= 10) and a dozen same-named packages (alias index >= 10)
+MCPkgsDeep == {[name |-> "io", path |-> "d/" \o ToString(i)] : i \in 10..22}
+MCPrefixesDeep == {"a"}
+MCAddNamesDeep == {"a3", "a11"}
 ====\* package-focused alphabet: a path that is a "/"-suffix of another one ("io" vs "x/io"), a package named like
 \* the source package, and the source package itself (= destination path: external test package unless in-package)
 MCPkgsP == {[name |-> "io", path |-> "io"], [name |-> "io", path |-> "x/io"],
@@ -68,6 +92,10 @@ MCPkgsP == {[name |-> "io", path |-> "io"], [name |-> "io", path |-> "x/io"],
 MCPkgsT == MCPkgs4 \cup {[name |-> "src", path |-> "q/src"], [name |-> "src", path |-> "src"]}
 MCPrefixesP == {"io", "src"}
 MCAddNamesP == {"io0", "src"}
+\* deep alphabet: ONE prefix allocated many times (suffix >= 10) and a dozen same-named packages (alias index >= 10)
+MCPkgsDeep == {[name |-> "io", path |-> "d/" \o ToString(i)] : i \in 10..22}
+MCPrefixesDeep == {"a"}
+MCAddNamesDeep == {"a3", "a11"}
 ====\* package-focused alphabet: a path that is a "/"-suffix of another one ("io" vs "x/io"), a package named like
 \* the source package, and the source package itself (= destination path: external test package unless in-package)
 MCPkgsP == {[name |-> "io", path |-> "io"], [name |-> "io", path |-> "x/io"],
@@ -76,6 +104,10 @@ MCPkgsP == {[name |-> "io", path |-> "io"], [name |-> "io", path |-> "x/io"],
 MCPkgsT == MCPkgs4 \cup {[name |-> "src", path |-> "q/src"], [name |-> "src", path |-> "src"]}
 MCPrefixesP == {"io", "src"}
 MCAddNamesP == {"io0", "src"}
+\* deep alphabet: ONE prefix allocated many times (suffix >= 10) and a dozen same-named packages (alias index >= 10)
+MCPkgsDeep == {[name |-> "io", path |-> "d/" \o ToString(i)] : i \in 10..22}
+MCPrefixesDeep == {"a"}
+MCAddNamesDeep == {"a3", "a11"}
 ====\* package-focused alphabet: a path that is a "/"-suffix of another one ("io" vs "x/io"), a package named like
 \* the source package, and the source package itself (= destination path: external test package unless in-package)
 MCPkgsP == {[name |-> "io", path |-> "io"], [name |-> "io", path |-> "x/io"],
@@ -84,6 +116,10 @@ MCPkgsP == {[name |-> "io", path |-> "io"], [name |-> "io", path |-> "x/io"],
 MCPkgsT == MCPkgs4 \cup {[name |-> "src", path |-> "q/src"], [name |-> "src", path |-> "src"]}
 MCPrefixesP == {"io", "src"}
 MCAddNamesP == {"io0", "src"}
+\* deep alphabet: ONE prefix allocated many times (suffix >= 10) and a dozen same-named packages (alias index >= 10)
+MCPkgsDeep == {[name |-> "io", path |-> "d/" \o ToString(i)] : i \in 10..22}
+MCPrefixesDeep == {"a"}
+MCAddNamesDeep == {"a3", "a11"}
 ====\* package-focused alphabet: a path that is a "/"-suffix of another one ("io" vs "x/io"), a package named like
 \* the source package, and the source package itself (= destination path: external test package unless in-package)
 MCPkgsP == {[name |-> "io", path |-> "io"], [name |-> "io", path |-> "x/io"],
@@ -92,6 +128,10 @@ MCPkgsP == {[name |-> "io", path |-> "io"], [name |-> "io", path |-> "x/io"],
 MCPkgsT == MCPkgs4 \cup {[name |-> "src", path |-> "q/src"], [name |-> "src", path |-> "src"]}
 MCPrefixesP == {"io", "src"}
 MCAddNamesP == {"io0", "src"}
+\* deep alphabet: ONE prefix allocated many times (suffix >= 10) and a dozen same-named packages (alias index >= 10)
+MCPkgsDeep == {[name |-> "io", path |-> "d/" \o ToString(i)] : i \in 10..22}
+MCPrefixesDeep == {"a"}
+MCAddNamesDeep == {"a3", "a11"}
 ====\* package-focused alphabet: a path that is a "/"-suffix of another one ("io" vs "x/io"), a package named like
 \* the source package, and the source package itself (= destination path: external test package unless in-package)
 MCPkgsP == {[name |-> "io", path |-> "io"], [name |-> "io", path |-> "x/io"],
@@ -100,6 +140,10 @@ MCPkgsP == {[name |-> "io", path |-> "io"], [name |-> "io", path |-> "x/io"],
 MCPkgsT == MCPkgs4 \cup {[name |-> "src", path |-> "q/src"], [name |-> "src", path |-> "src"]}
 MCPrefixesP == {"io", "src"}
 MCAddNamesP == {"io0", "src"}
+\* deep alphabet: ONE prefix allocated many times (suffix >= 10) and a dozen same-named packages (alias index >= 10)
+MCPkgsDeep == {[name |-> "io", path |-> "d/" \o ToString(i)] : i \in 10..22}
+MCPrefixesDeep == {"a"}
+MCAddNamesDeep == {"a3", "a11"}
 ====\* package-focused alphabet: a path that is a "/"-suffix of another one ("io" vs "x/io"), a package named like
 \* the source package, and the source package itself (= destination path: external test package unless in-package)
 MCPkgsP == {[name |-> "io", path |-> "io"], [name |-> "io", path |-> "x/io"],
@@ -108,6 +152,10 @@ MCPkgsP == {[name |-> "io", path |-> "io"], [name |-> "io", path |-> "x/io"],
 MCPkgsT == MCPkgs4 \cup {[name |-> "src", path |-> "q/src"], [name |-> "src", path |-> "src"]}
 MCPrefixesP == {"io", "src"}
 MCAddNamesP == {"io0", "src"}
+\* deep alphabet: ONE prefix allocated many times (suffix >= 10) and a dozen same-named packages (alias index >= 10)
+MCPkgsDeep == {[name |-> "io", path |-> "d/" \o ToString(i)] : i \in 10..22}
+MCPrefixesDeep == {"a"}
+MCAddNamesDeep == {"a3", "a11"}
 ====\* package-focused alphabet: a path that is a "/"-suffix of another one ("io" vs "x/io"), a package named like
 \* the source package, and the source package itself (= destination path: external test package unless in-package)
 MCPkgsP == {[name |-> "io", path |-> "io"], [name |-> "io", path |-> "x/io"],
@@ -116,6 +164,10 @@ MCPkgsP == {[name |-> "io", path |-> "io"], [name |-> "io", path |-> "x/io"],
 MCPkgsT == MCPkgs4 \cup {[name |-> "src", path |-> "q/src"], [name |-> "src", path |-> "src"]}
 MCPrefixesP == {"io", "src"}
 MCAddNamesP == {"io0", "src"}
+\* deep alphabet: ONE prefix allocated many times (suffix >= 10) and a dozen same-named packages (alias index >= 10)
+MCPkgsDeep == {[name |-> "io", path |-> "d/" \o ToString(i)] : i \in 10..22}
+MCPrefixesDeep == {"a"}
+MCAddNamesDeep == {"a3", "a11"}
 ====\* package-focused alphabet: a path that is a "/"-suffix of another one ("io" vs "x/io"), a package named like
 \* the source package, and the source package itself (= destination path: external test package unless in-package)
 MCPkgsP == {[name |-> "io", path |-> "io"], [name |-> "io", path |-> "x/io"],
@@ -124,6 +176,10 @@ MCPkgsP == {[name |-> "io", path |-> "io"], [name |-> "io", path |-> "x/io"],
 MCPkgsT == MCPkgs4 \cup {[name |-> "src", path |-> "q/src"], [name |-> "src", path |-> "src"]}
 MCPrefixesP == {"io", "src"}
 MCAddNamesP == {"io0", "src"}
+\* deep alphabet: ONE prefix allocated many times (suffix >= 10) and a dozen same-named packages (alias index >= 10)
+MCPkgsDeep == {[name |-> "io", path |-> "d/" \o ToString(i)] : i \in 10..22}
+MCPrefixesDeep == {"a"}
+MCAddNamesDeep == {"a3", "a11"}
 ====\* package-focused alphabet: a path that is a "/"-suffix of another one ("io" vs "x/io"), a package named like
 \* the source package, and the source package itself (= destination path: external test package unless in-package)
 MCPkgsP == {[name |-> "io", path |-> "io"], [name |-> "io", path |-> "x/io"],
@@ -132,6 +188,10 @@ MCPkgsP == {[name |-> "io", path |-> "io"], [name |-> "io", path |-> "x/io"],
 MCPkgsT == MCPkgs4 \cup {[name |-> "src", path |-> "q/src"], [name |-> "src", path |-> "src"]}
 MCPrefixesP == {"io", "src"}
 MCAddNamesP == {"io0", "src"}
+\* deep alphabet: ONE prefix allocated many times (suffix >= 10) and a dozen same-named packages (alias index >= 10)
+MCPkgsDeep == {[name |-> "io", path |-> "d/" \o ToString(i)] : i \in 10..22}
+MCPrefixesDeep == {"a"}
+MCAddNamesDeep == {"a3", "a11"}
 ====\* package-focused alphabet: a path that is a "/"-suffix of another one ("io" vs "x/io"), a package named like
 \* the source package, and the source package itself (= destination path: external test package unless in-package)
 MCPkgsP == {[name |-> "io", path |-> "io"], [name |-> "io", path |-> "x/io"],
@@ -140,6 +200,10 @@ MCPkgsP == {[name |-> "io", path |-> "io"], [name |-> "io", path |-> "x/io"],
 MCPkgsT == MCPkgs4 \cup {[name |-> "src", path |-> "q/src"], [name |-> "src", path |-> "src"]}
 MCPrefixesP == {"io", "src"}
 MCAddNamesP == {"io0", "src"}
+\* deep alphabet: ONE prefix allocated many times (suffix >= 10) and a dozen same-named packages (alias index >= 10)
+MCPkgsDeep == {[name |-> "io", path |-> "d/" \o ToString(i)] : i \in 10..22}
+MCPrefixesDeep == {"a"}
+MCAddNamesDeep == {"a3", "a11"}
 ====\* package-focused alphabet: a path that is a "/"-suffix of another one ("io" vs "x/io"), a package named like
 \* the source package, and the source package itself (= destination path: external test package unless in-package)
 MCPkgsP == {[name |-> "io", path |-> "io"], [name |-> "io", path |-> "x/io"],
@@ -148,6 +212,10 @@ MCPkgsP == {[name |-> "io", path |-> "io"], [name |-> "io", path |-> "x/io"],
 MCPkgsT == MCPkgs4 \cup {[name |-> "src", path |-> "q/src"], [name |-> "src", path |-> "src"]}
 MCPrefixesP == {"io", "src"}
 MCAddNamesP == {"io0", "src"}
+\* deep alphabet: ONE prefix allocated many times (suffix >= 10) and a dozen same-named packages (alias index >= 10)
+MCPkgsDeep == {[name |-> "io", path |-> "d/" \o ToString(i)] : i \in 10..22}
+MCPrefixesDeep == {"a"}
+MCAddNamesDeep == {"a3", "a11"}
 ====\* package-focused alphabet: a path that is a "/"-suffix of another one ("io" vs "x/io"), a package named like
 \* the source package, and the source package itself (= destination path: external test package unless in-package)
 MCPkgsP == {[name |-> "io", path |-> "io"], [name |-> "io", path |-> "x/io"],
@@ -156,6 +224,10 @@ MCPkgsP == {[name |-> "io", path |-> "io"], [name |-> "io", path |-> "x/io"],
 MCPkgsT == MCPkgs4 \cup {[name |-> "src", path |-> "q/src"], [name |-> "src", path |-> "src"]}
 MCPrefixesP == {"io", "src"}
 MCAddNamesP == {"io0", "src"}
+\* deep alphabet: ONE prefix allocated many times (suffix >= 10) and a dozen same-named packages (alias index >= 10)
+MCPkgsDeep == {[name |-> "io", path |-> "d/" \o ToString(i)] : i \in 10..22}
+MCPrefixesDeep == {"a"}
+MCAddNamesDeep == {"a3", "a11"}
 ====\* package-focused alphabet: a path that is a "/"-suffix of another one ("io" vs "x/io"), a package named like
 \* the source package, and the source package itself (= destination path: external test package unless in-package)
 MCPkgsP == {[name |-> "io", path |-> "io"], [name |-> "io", path |-> "x/io"],
@@ -164,4 +236,8 @@ MCPkgsP == {[name |-> "io", path |-> "io"], [name |-> "io", path |-> "x/io"],
 MCPkgsT == MCPkgs4 \cup {[name |-> "src", path |-> "q/src"], [name |-> "src", path |-> "src"]}
 MCPrefixesP == {"io", "src"}
 MCAddNamesP == {"io0", "src"}
+\* deep alphabet: ONE prefix allocated many times (suffix >= 10) and a dozen same-named packages (alias index >= 10)
+MCPkgsDeep == {[name |-> "io", path |-> "d/" \o ToString(i)] : i \in 10..22}
+MCPrefixesDeep == {"a"}
+MCAddNamesDeep == {"a3", "a11"}
 =====
